@@ -5,6 +5,12 @@ import (
 	"fmt"
 	"sync"
 
+	goat "github.com/avos-io/goat"
+	"github.com/avos-io/goat/gen/goatorepo"
+	"google.golang.org/protobuf/proto"
+	"goatverif/quiesce"
+	"goatverif/wire"
+
 	"google.golang.org/grpc"
 	"google.golang.org/grpc/codes"
 	"google.golang.org/grpc/status"
@@ -62,12 +68,219 @@ func c11List(tier string) []c11Case {
 			}
 		}
 	}
+	// scripted-server families: the abandonment happens on the client while its own send side is busy
+	reps := 1
+	if tier == "thorough" {
+		reps = 6
+	}
+	for rp := 0; rp < reps; rp++ {
+		for m := 3; m <= 6; m++ {
+			i++
+			out = append(out, c11Case{Mode: "cancel-while-send-blocked-with-unread", Kind: "bidi", M: m, GMP: []int{1, 4, 16}[i%3]})
+			out = append(out, c11Case{Mode: "undecodable-response-then-more", Kind: []string{"bidi", "server"}[i%2], M: m, GMP: []int{1, 4, 16}[(i+1)%3]})
+		}
+	}
 	return out
+}
+
+// floodPeer is a scripted server: it answers unary calls by echoing, answers a stream open with
+// m responses (the first undecodable in mode "undecodable-response-then-more") and, in mode
+// "cancel-while-send-blocked-with-unread", stops reading after the open until resume().
+type floodPeer struct {
+	mu     sync.Mutex
+	mode   string
+	m      int
+	opened int
+	paused bool
+	wake   chan struct{}
+}
+
+func (fp *floodPeer) set(mode string, m int) {
+	fp.mu.Lock()
+	fp.mode, fp.m = mode, m
+	fp.mu.Unlock()
+}
+
+func (fp *floodPeer) openedN() int {
+	fp.mu.Lock()
+	defer fp.mu.Unlock()
+	return fp.opened
+}
+
+func (fp *floodPeer) resume() {
+	fp.mu.Lock()
+	if fp.paused {
+		fp.paused = false
+		close(fp.wake)
+	}
+	fp.mu.Unlock()
+}
+
+func newFloodPeer(ctx context.Context, l *wire.Link) *floodPeer {
+	fp := &floodPeer{}
+	body := func(s string) *goatorepo.Body {
+		b, _ := proto.Marshal(&svc.BV{Value: []byte(s)})
+		return &goatorepo.Body{Data: b}
+	}
+	go func() {
+		for {
+			fp.mu.Lock()
+			var wake chan struct{}
+			if fp.paused {
+				wake = fp.wake
+			}
+			fp.mu.Unlock()
+			if wake != nil {
+				select {
+				case <-wake:
+				case <-ctx.Done():
+					return
+				}
+			}
+			in, err := l.B.Read(ctx)
+			if err != nil {
+				return
+			}
+			hd := &goatorepo.RequestHeader{Method: in.GetHeader().GetMethod(), Source: "srv", Destination: "c0"}
+			switch {
+			case in.GetHeader().GetMethod() == svc.MUnary:
+				go l.B.Write(ctx, &wire.Rpc{Id: in.GetId(), Header: hd, Body: in.GetBody(), Trailer: &goatorepo.Trailer{}})
+			case in.GetBody() == nil && in.GetTrailer() == nil && in.GetReset_() == nil:
+				id := in.GetId()
+				fp.mu.Lock()
+				fp.opened++
+				mode, m := fp.mode, fp.m
+				if mode == "cancel-while-send-blocked-with-unread" {
+					fp.paused, fp.wake = true, make(chan struct{})
+				}
+				fp.mu.Unlock()
+				go func() {
+					for k := 0; k < m; k++ {
+						b := body(fmt.Sprintf("resp%d", k))
+						if mode == "undecodable-response-then-more" && k == 0 {
+							b = &goatorepo.Body{Data: []byte{0x0a, 0xff, 0xff, 0xff, 0xff, 0x0f}}
+						}
+						if l.B.Write(ctx, &wire.Rpc{Id: id, Header: hd, Body: b}) != nil {
+							return
+						}
+					}
+				}()
+			}
+		}
+	}()
+	return fp
+}
+
+// awaitTeardownOrFinal waits until the cancelled call's teardown is writing its reset (a write
+// with a real 30 s deadline, which is why a plain wait for a final state would last as long),
+// the caller has returned, or a final state is reached.
+func awaitTeardownOrFinal(tier string, w *Waiter) {
+	quiesce.Wait(watchdog(tier), func() bool {
+		return w.Left() == 0 || quiesce.Take().TimerBlocked() != nil
+	})
+}
+
+// c11Scripted: abandonment scenarios that need a peer behaving in a particular way, played by a
+// scripted server against the real client.
+func c11Scripted(tier string, seed int64, idx int, c c11Case, res *core.Result) {
+	setGMP(c.GMP)
+	h := bed.NewHooks()
+	h.Install()
+	l := wire.NewLink(0, idx%2 == 0)
+	ctx, cancel := context.WithCancel(context.Background())
+	defer cancel()
+	gates := NewGates()
+	fp := newFloodPeer(ctx, l)
+	fp.set(c.Mode, c.M)
+	cc := goat.NewClientConn(l.A, "c0", "srv")
+	m := svc.NewManualCtx(context.Background())
+	var w Waiter
+	w.Add(1)
+	var sendErr, recvErr error
+	go func() {
+		defer w.Done()
+		s, err := svc.Open(m, cc, c.Kind, "ab", []byte("q"))
+		if err != nil {
+			return
+		}
+		if c.Mode == "cancel-while-send-blocked-with-unread" {
+			// never receives; keeps sending until the transport pushes back, then is cancelled
+			for k := 0; k < 50; k++ {
+				if sendErr = s.Send([]byte("up")); sendErr != nil {
+					break
+				}
+			}
+			return
+		}
+		// receives; the first response cannot be decoded: the caller treats the stream as aborted
+		// (as the API contract says) and simply stops - it does not cancel
+		_, recvErr = s.Recv()
+	}()
+	quiet(tier)
+	if fp.openedN() == 0 {
+		res.Verdict, res.Note = core.Inconclusive, "stream open did not reach the scripted server"
+	}
+	if c.Mode == "cancel-while-send-blocked-with-unread" {
+		m.Cancel()
+		awaitTeardownOrFinal(tier, &w)
+		fp.resume()
+	}
+	st, snap := settle(tier, func() bool { return w.Left() == 0 })
+	if st == "stuck" {
+		res.ViolateD("abandoning-call-never-returns/"+c.Mode, map[string]any{"goat_goroutines": goatParked(snap)}, "%s (m=%d): the abandoning caller's own operation never returns", c.Mode, c.M)
+	}
+	quiet(tier)
+	// the connection must still serve other RPCs
+	pdone := make(chan error, 1)
+	go func() {
+		got, err := svc.Invoke(context.Background(), cc, "probe", []byte("probe"))
+		if err == nil && string(got) != "probe" {
+			err = fmt.Errorf("wrong reply %q", got)
+		}
+		pdone <- err
+	}()
+	var perr error
+	got := false
+	stp, snapp := settle(tier, func() bool {
+		select {
+		case perr = <-pdone:
+			got = true
+			return true
+		default:
+			return got
+		}
+	})
+	if stp == "stuck" {
+		res.ViolateD("connection-wedged-after-abandoned-stream/"+c.Mode, map[string]any{"goat_goroutines": goatParked(snapp)}, "after %s (m=%d) a probe call never completes: final state reached", c.Mode, c.M)
+	} else if stp == "ok" && perr != nil {
+		res.Violate("rpc-fails-after-abandoned-stream", "probe failed after %s: %v", c.Mode, perr)
+	} else if stp == "ok" {
+		res.Stat("probes_completed", 1)
+		res.Stat("scripted_abandonments", 1)
+	}
+	_ = sendErr
+	_ = recvErr
+	res.Stat("abandonments", 1)
+	m.Cancel()
+	gates.OpenAll()
+	cancel()
+	l.Kill()
+	left, final := bed.Hygiene(watchdog(tier))
+	bed.Uninstall()
+	h.Fold(res)
+	if !final || len(left) > 0 {
+		res.Retire = true
+	}
 }
 
 func c11Run(tier string, seed int64, idx int) *core.Result {
 	list := c11List(tier)
 	c := list[idx]
+	if c.Mode == "cancel-while-send-blocked-with-unread" || c.Mode == "undecodable-response-then-more" {
+		res := &core.Result{Verdict: core.Held, Sample: c, Sig: fmt.Sprintf("%+v/%d", c, idx), NonTrivial: true}
+		c11Scripted(tier, seed, idx, c, res)
+		return res
+	}
 	_ = seed
 	res := &core.Result{Verdict: core.Held, Sample: c, Sig: fmt.Sprintf("%+v", c), NonTrivial: true}
 	setGMP(c.GMP)
@@ -309,11 +522,11 @@ func init() {
 	core.Register(&core.Prop{
 		ID:    "C11",
 		Level: "exploration",
-		Rule:  "cases = {handler returns after k of n client messages, all 0<=k<n<=8 (server-stream n<=3)} + {caller cancels with m in 0..8 responses unread} x stream kind x other RPCs in flight {quick 0,2; thorough 0..4} x hook plan {none, rendezvous parking the server's stream unregistration until nothing else moves; thorough adds jitter and parking the client stream's teardown}; every case ends with a no-deadline probe and a manual-deadline probe. All cases are distinct parameter tuples and all are non-trivial (each abandons a stream).",
+		Rule:  "cases = {handler returns after k of n client messages, all 0<=k<n<=8 (server-stream n<=3)} + {caller cancels with m in 0..8 responses unread} x stream kind x other RPCs in flight {quick 0,2; thorough 0..4} x hook plan {none, rendezvous parking the server's stream unregistration until nothing else moves; thorough adds jitter and parking the client stream's teardown}; plus scripted-server families (the caller is cancelled while its send is blocked by transport back-pressure and m in 3..6 responses are unread; the first response cannot be decoded, the caller stops receiving without cancelling, and m-1 more responses follow); every case ends with a no-deadline probe and a manual-deadline probe. All cases are distinct parameter tuples and all are non-trivial (each abandons a stream).",
 		Plan:  func(tier string, seed int64) int { return len(c11List(tier)) },
 		Run:   c11Run,
 		Assumptions: []string{"final state = every goroutine durably blocked in a consistent stop-the-world snapshot (channel-only scenario, manual deadlines, no real timers)"},
-		RequiredStats: func(string) []string { return []string{"probes_completed", "rendezvous_fired", "hook:srv.beforeStream"} },
+		RequiredStats: func(string) []string { return []string{"probes_completed", "rendezvous_fired", "hook:srv.beforeStream", "scripted_abandonments"} },
 		Exhaustive: func(string) bool { return false },
 	})
 }
